@@ -24,6 +24,7 @@ import (
 	"seata.apache.org/seata-go/pkg/remoting/config"
 	sgetty "seata.apache.org/seata-go/pkg/remoting/getty"
 	"seata.apache.org/seata-go/pkg/remoting/loadbalance"
+	"seata.apache.org/seata-go/pkg/remoting/rpc"
 	"seata.apache.org/seata-go/pkg/tm"
 	"seata.apache.org/seata-go/pkg/util/vshim/vtime"
 
@@ -80,6 +81,9 @@ func run(policy string, h History) (clause, detail string) {
 	sgetty.VerifResetRemoting()
 	loadbalance.VerifReset()
 	config.GetSeataConfig().LoadBalanceType = policy
+	for _, a := range addrs {
+		rpc.RemoveStatus(a) // the per-address in-flight counters the least-active policy reads
+	}
 	var all []*sess
 	registered := map[int]bool{}
 	for step, ev := range h {
@@ -103,6 +107,8 @@ func run(policy string, h History) (clause, detail string) {
 			all[i].Close()
 			sgetty.VerifReleaseSession(all[i])
 			registered[i] = false
+		case 'b': // a request is put in flight on address a (the counter a sender increments around its write)
+			rpc.BeginCount(addrs[ev[1]-'0'])
 		case 's':
 			x := xids[ev[1]-'0']
 			var open []*sess
@@ -159,7 +165,7 @@ func names(ss []*sess) []string {
 }
 
 // enumerate all histories up to depth with at most maxSess sessions; every history ends with a selection.
-func enumerate(depth, maxSess int, yield func(h History)) {
+func enumerate(depth, maxSess int, withCounters bool, yield func(h History)) {
 	var rec func(h History, nsess int)
 	rec = func(h History, nsess int) {
 		if len(h) > 0 && h[len(h)-1][0] == 's' {
@@ -176,6 +182,11 @@ func enumerate(depth, maxSess int, yield func(h History)) {
 		for i := 0; i < nsess; i++ {
 			rec(append(h, fmt.Sprintf("d%d", i)), nsess)
 			rec(append(h, fmt.Sprintf("r%d", i)), nsess)
+		}
+		if nsess > 0 && withCounters {
+			for a := range addrs {
+				rec(append(h, fmt.Sprintf("b%d", a)), nsess)
+			}
 		}
 		if nsess > 0 {
 			for x := range xids {
@@ -198,7 +209,7 @@ func partA(r *rep.Run, thorough bool) {
 	defer func() { config.GetSeataConfig().LoadBalanceType = saved }()
 	for _, p := range policies {
 		n := 0
-		enumerate(depth, maxSess, func(h History) {
+		enumerate(depth, maxSess, p == "LeastActiveLoadBalance", func(h History) {
 			n++
 			r.Eval(true)
 			// random policies: repeat to cover the index choices (the chosen index is time-seeded; membership must hold for each)
@@ -305,7 +316,7 @@ func partB(r *rep.Run) {
 
 func Run(r *rep.Run) {
 	thorough := r.Tier == "thorough"
-	r.Rule = "A: every history of up to 5 (thorough 6) events over {open a connection to one of 3 addresses (one address a textual prefix of another), a session dies silently, getty reports a session closed, select for one of 5 xids (3 matching addresses, one foreign address, one not of the form ip:port:id)} with at most 2 (thorough 3) sessions, ending in a selection, x the five policies, on the real registry through sessionManager.selectSession with the request wrapped as the client wraps it. B: connection loss and re-establishment while idle, between phase one and phase two of an AT branch, and twice in a row, on the closed system."
+	r.Rule = "A: every history of up to 5 (thorough 6) events over {open a connection to one of 3 addresses (one address a textual prefix of another), a session dies silently, getty reports a session closed, (least-active policy only) a request put in flight on one of the addresses, select for one of 5 xids (3 matching addresses, one foreign address, one not of the form ip:port:id)} with at most 2 (thorough 3) sessions, ending in a selection, x the five policies, on the real registry through sessionManager.selectSession with the request wrapped as the client wraps it. B: connection loss and re-establishment while idle, between phase one and phase two of an AT branch, and twice in a row, on the closed system."
 	r.Assume = []string{"the index drawn by the random policies is not controlled (time-seeded); the oracle must hold for every index and each history is repeated 3 times", "selection with no open session (the check-alive wait) is not driven"}
 	sys.InitClient()
 	if replay := os.Getenv("VERIF_REPLAY"); replay != "" {
